@@ -14,10 +14,10 @@ VALUES = [1, 2, 3, 4, 9, 7, 'masked']   # 7 = a value that is not a flag
 ODD = [_Fr(7, 2), _Fr(9, 2), 260, 265, 0, -1, _Fr(19, 2)]
 
 
-def mkvec(vals):
+def mkvec(vals, kind='ma'):
     cells = [El(X.ANY, True) if v == 'masked' else El(X.num(v), False) for v in vals]
     ints = all(v == 'masked' or (isinstance(v, int) and 0 <= v < 256) for v in vals)
-    return Vec.fresh(cells, kind='ma', dtype='u1' if ints else 'f8', owner='flags')
+    return Vec.fresh(cells, kind=kind, dtype='u1' if ints else 'f8', owner='flags')
 
 
 def expected(columns):
@@ -133,11 +133,16 @@ def run(ck):
     CR = r.interp.module('ioos_qc.results').globals['CollectedResult']
     # results of every package count alike (the roll-up is over *all* collected results, whichever module produced them)
     for combo, pkgs in itertools.product(itertools.product([1, 3, 4], repeat=3),
-                                         (('qartod', 'qartod', 'qartod'), ('qartod', 'axds', 'argo'), ('axds', 'qartod', 'qartod'), ('axds', 'argo', 'axds'))):
+                                         (('qartod', 'qartod', 'qartod'), ('qartod', 'axds', 'argo'), ('axds', 'qartod', 'qartod'), ('axds', 'argo', 'axds'), ('plain-ndarray',) * 3)):
         inst = Instance(PS)
         crs = []
+        # (some tests hand back plain ndarrays - flat_line, attenuated_signal, pressure_increasing; bare CallResults carry them as they are)
+        plain = pkgs[0] == 'plain-ndarray'
+        if plain:
+            pkgs = ('qartod', 'qartod', 'argo')
         for i, v in enumerate(combo):
-            cr = r.interp.instantiate(CR, [], dict(stream_id=f's{i}', package=pkgs[i], test=f't{i}', function=None, results=mkvec([v])), None)
+            cr = r.interp.instantiate(CR, [], dict(stream_id=f's{i}', package=pkgs[i], test=f't{i}', function=None,
+                                                   results=mkvec([v], kind='nd' if plain and i != 1 else 'ma')), None)
             crs.append(cr)
         inst.attrs['collected_results'] = list(crs)
         meth = r.interp.getattr(inst, 'compute_aggregate', None)
